@@ -1,74 +1,6 @@
-"""Per-property configuration of the check (see lib/vcheck.py)."""
-PROPS = {
-    "C14": dict(
-        claim="Machine-checked proof (Coq 8.16.1) over an executable Gallina model of base_relocs.rs: for every directory the block iterator terminates, never faults and yields the partition the property describes (C14_blocks_partition, C14_chain_meaning); the internal fold equals the flattened non-padding entries of those blocks (C14_fold_is_flat); build followed by parse returns exactly the input pairs in page-aligned blocks of size multiple of four for every rva list and types 1..15 (C14_build_roundtrip). The model is tied to /repo on every run by a differential correspondence check (extracted OCaml model vs the real library on generated directories and rva lists) and by evaluating the extracted boolean form of the theorem statements on the implementation's own observations.",
-        note="Trusted: Coq kernel; extraction (ExtrOcamlBasic only) and the OCaml/Rust glue; the hand-written model is tied to the code only by the correspondence check (differential testing, bounded by its generator). Theorems carry machine-range hypotheses (slice length < 2^64-3; build: 2*len+11 < 2^32). try_from (directory extraction from an image) is covered by the slicing theorems of C04/C05.",
-        bin="c14", driver="c14_driver", extract=["C14"],
-        quick_cases=4000, thorough_cases=400000, case_seconds=3,
-        correspondence="Model/Relocs.v {blocks, fold_pairs, build} vs pelite::base_relocs::{BaseRelocs::parse/iter_blocks/for_each/fold, build}",
-        rule="60% relocation directories (structured blocks with SizeOfBlock drawn from {0,1,7,9,true,true+-1,true+2,true+4k,2^31,2^32-4..2^32-1,random}, "
-             "10% of them pure noise, optional truncation/trailing bytes, buffer placed at 0/4/8/12 mod 16), 40% build() inputs (ascending rvas stepping to page "
-             "starts, to offset 0xFFF, near 2^32, duplicates, occasionally unsorted; types 1..15). A case is non-trivial when the directory has at least one "
-             "block / the rva list is non-empty; distinct = distinct case text.",
-        trusted_base=["Spec/RelocSpec.v as the reading of the property text"],
-        assumptions=["slice lengths are below 2^64-3 (Rust: at most isize::MAX)", "build(): 2*len(rvas)+11 < 2^32, equal-length inputs (documented assert)"],
-    ),
-    "C04": dict(
-        claim="Machine-checked proof over an executable model of the address-translation core of pe.rs: for every section table (any number of sections, any u32 field values including wrapping VirtualAddress+size and raw ranges) and every RVA / file offset / (min_size, align) request, the first-match section walk with its wrapping and checked arithmetic equals the loop-free PE mapping rule of Spec/MappingSpec.v (C04_rva_to_file_offset, C04_file_offset_to_rva, C04_slice_file), a successful slice starts at PRD+(rva-VA) of the first containing section and ends where its raw data ends inside the buffer (C04_slice_file_ok), a request for more never succeeds, and offset->rva inverts rva->offset on stored, mapped, unaliased bytes (with the impossibility lemma for aliased ones). Tied to /repo by the correspondence check on generated section tables with boundary-enumerated queries, and by evaluating the spec on the implementation's results.",
-        note="Trusted: Coq kernel, extraction and glue, the generator's own header writer (the model takes the decoded section table from the generator, so pelite's header decoding is exercised too). The model is hand-written; the correspondence is differential testing bounded by its generator.",
-        bin="views", driver="views_driver", model_ml="views_model", driver_includes=["image.ml"], driver_args=["C04"], extract=["Views"], shrink_fields=["q"],
-        quick_cases=3000, thorough_cases=150000, case_seconds=5,
-        correspondence="Model/Mapping.v {rva_to_file_offset, file_offset_to_rva, range_file, slice_file, get_section_bytes} vs pelite::pe32/pe64::Pe methods on PeFile",
-        rule="PE32 and PE32+ images written by the harness's own header writer: 0..12 sections drawn from the shapes of the quantifier (aligned, unaligned raw pointer, "
-             "VirtualSize <,=,> SizeOfRawData, empty raw data, overlapping virtual ranges, shared raw data, VA+size wrapping or ending at 2^32, raw data partly/wholly "
-             "outside the file or wrapping, sections inside the header range, unsorted), SizeOfHeaders in {0, len, header end, random, 0x400}; 40 queries per image at "
-             "section edges (VA, VA+VS, VA+SRD, VA+max, PRD, PRD+SRD, SizeOfHeaders, SizeOfImage, len, 2^32-1) + {-8..8}, min_size in {0,1,2,4,8,len,2^32,2^63,2^64-1,random}, "
-             "align in {1,2,4,8}; buffer placed at 0/4/8/12 mod 16. Non-trivial: at least one query of this property's kinds was evaluated; distinct = distinct case text.",
-        trusted_base=["Spec/MappingSpec.v as the reading of the property text (first containing section, stored / tail / outside)"],
-        assumptions=["section header fields and RVAs are u32, file offsets are usize (64-bit)"],
-    ),
-    "C05": dict(
-        claim="Machine-checked proof over an executable model of rva<->va conversion, mapped-view slicing, va-based reading and the typed read family: closed forms for rva_to_va / va_to_rva and the round trips on (0, SizeOfImage) (C05_rva_va_roundtrip, C05_va_rva_roundtrip), a mapped view slices the buffer at offset rva (C05_slice_section), reading at B+r equals slicing at r as a result value - same region, same error - for file and mapped views (C05_read_is_slice), zero addresses always give Null, fixed-size typed reads are exactly a prefix of the untyped slice, sentinel/predicate reads return the longest prefix before the first matching element or Bounds and never run out of fuel (C05_rd_slice_f), C strings end at the first NUL or fail with Encoding (C05_rd_c_str). Tied to /repo by the correspondence check (both views, both formats, by-rva and by-va paths, element sizes 1/2/4/8).",
-        note="Trusted: Coq kernel, extraction and glue. derva_string::<WideStr> is not reachable through the public API and is not modelled. The model is hand-written; the correspondence is differential testing bounded by its generator.",
-        bin="views", driver="views_driver", model_ml="views_model", driver_includes=["image.ml"], driver_args=["C05"], extract=["Views"], shrink_fields=["q"],
-        quick_cases=3000, thorough_cases=150000, case_seconds=5,
-        correspondence="Model/Views.v {rva_to_va, va_to_rva, slice_section, read_section, read_file, slice, read, rd, rd_copy, rd_slice, rd_slice_s, rd_c_str} vs pelite Pe::{rva_to_va, va_to_rva, slice, read, derva, derva_copy, derva_into, derva_slice, derva_slice_s, derva_c_str, deref, deref_slice_s, deref_c_str}",
-        rule="same image generator as C04, file and mapped views, ImageBase in {0, 0x1000, typical, 2^32-0x1000, 2^64-0x1000}, overridden bases for mapped views; queries by rva and by va = base + rva "
-             "(plus va 0, base-1, random); element sizes 1,2,4,8; array lengths {0, small, 2^61, 2^63-1}; sentinel 0 or random; NUL/zero runs planted in the pattern-filled content. "
-             "Non-trivial: at least one query of this property's kinds was evaluated.",
-        trusted_base=["Spec/ViewSpec.v as the reading of the property text"],
-        assumptions=["Va is 32 or 64 bits wide, usize is 64 bits; derva_string::<WideStr> is not reachable through the public API (WideStr is crate-private) and is not exercised"],
-    ),
-    "C07": dict(
-        claim="Machine-checked proof over an executable model of validate_headers, the header accessors, the section lookups, the format-agnostic constructors and Headers::check_sum: a buffer is accepted exactly when the conjunction the property lists holds, with offsets taken from the PE/COFF specification (C07_validate_accept_32/64; the struct layout is regenerated from src/image.rs on every run and proved equal to the specification constants, C07_layout_matches_format); a valid image of the other bitness gets PeMagic; the wrapper returns the variant matching the magic for every acceptable image (C07_wrapper); after acceptance every accessor returns the region the format prescribes, inside the buffer and aligned (C07_accessor_positions, C07_accessors_in_bounds_*); by_rva is the first containing section; and the dword-wise checksum fold equals the standard 16-bit one's-complement PE checksum for every buffer and length (C07_check_sum, a mod-65535 argument). Tied to /repo by the correspondence check on generated headers (every field mutated, lengths around every structure end, all placements) through both parsers and the wrapper.",
-        note="Trusted: Coq kernel, extraction and glue, tools/gen_layout.py (repr(C)/packed layout rules on x86_64, cross-checked against the size assertions in image.rs), Spec/HeaderSpec.v as the reading of the PE/COFF document. by_name is modelled and compared by correspondence; its theorem is its definition (first section whose 8 name bytes equal the zero-padded query).",
-        bin="headers", driver="headers_driver", model_ml="headers_model", driver_includes=["image.ml"], extract=["Headers"], ocaml_packages=["str"],
-        quick_cases=3000, thorough_cases=200000, case_seconds=5, shrink_fields=["rvas", "names"],
-        correspondence="Model/Headers.v {validate, wrap_from_bytes, accessors, data_dir, sections, by_name, by_rva, check_sum} vs pelite::{pe32,pe64}::{PeFile,PeView}::from_bytes, pelite::{PeFile,PeView}::from_bytes, Pe header accessors, SectionHeaders::{by_name,by_rva}, Headers::check_sum",
-        rule="headers written by the harness's own writer: e_lfanew in {4,0xC,0x3C,0x40,0x41,0x42,0x44,0x80,0xF8, 2^24-4, 2^24, 2^24+4 (sparse 16 MiB buffers)}, SizeOfOptionalHeader in {standard, 0,1,2,3,4,6,0xE0,0xE2,0xF0,0xFFFC,0xFFFF, standard+1..8}, "
-             "NumberOfRvaAndSizes in {0,1,10,15,16,17,2^31,2^32-1}, NumberOfSections field in {actual,0,1,3,96,97,65535}, magic in {0x10b,0x20b,0x107,0,0x20c}, corrupted MZ/PE signatures, SizeOfHeaders/SizeOfImage around each other and the length, "
-             "buffer lengths at every structure end +-1 and not multiples of four, placements 0/1/2/4/6/8/12 mod 16; every buffer goes through pe32, pe64 (file and view) and both wrappers. Non-trivial: accepted, or rejected later than the first two checks.",
-        trusted_base=["Spec/HeaderSpec.v (PE/COFF offsets, acceptance conjunction, standard PE checksum)", "tools/gen_layout.py"],
-        assumptions=["x86_64, 64-bit usize"],
-    ),
-    "C20": dict(
-        claim="Machine-checked proof over an executable model of strings.rs: for every byte string, configuration and base, iterating the enumerator to exhaustion terminates and yields exactly map found (filter qualifies (runs bytes)) - the qualifying maximal printable runs in order, with address base+start and the NUL flag (C20_enumerate); each call returns the first qualifying run at or after the resume offset and resumes right after its terminator (C20_next); runs consist of printable bytes only, are maximal, ordered and non-overlapping (C20_runs_sound, C20_runs_ordered); the implementation's byte test is the documented set TAB, LF, CR, 0x20..0x7E (C20_printable_set). Tied to /repo by the correspondence check on generated byte strings and configurations.",
-        note="Trusted: Coq kernel, extraction and glue; Spec/Runs.v as the reading of the property (a run before every non-printable byte, possibly empty; the rest of the buffer is a run only if non-empty; NUL-terminated runs use min_length_nul, others need strict_nul off and min_length). Buffer lengths are assumed below 2^32 (the iterator keeps its offset in a u32).",
-        bin="strings", driver="strings_driver", model_ml="strings_model", extract=["Strings"],
-        quick_cases=6000, thorough_cases=1000000, case_seconds=3,
-        correspondence="Model/Strings.v {is_printable, scan/next, enumerate} vs pelite::strings::{Config::enumerate, Enumerator::next}",
-        rule="byte strings of length 0..125 built from printable runs of length 0,1,2,0..11 (TAB/LF/CR/space/tilde over-represented) separated by terminators drawn from {NUL x4, 0x7F, 0x1F, 0x80, 0xFF, 0x08, 0x0B}, doubled NULs, buffers ending inside a run, 10% pure noise; thresholds from {0,1,2,3,6,255,1..10}; strict on/off; bases {0, 2^32-1, 2^32-1-len, 2^32-16, page multiples}. Non-trivial: non-empty input.",
-        trusted_base=["Spec/Runs.v as the reading of the property text"],
-        assumptions=["buffer length < 2^32"],
-    ),
-    "C16": dict(
-        claim="Machine-checked proof over an executable model of rich_structure.rs: the record codec is an involution both ways for every key (C16_decode_encode, C16_encode_decode); the checksum fold equals the closed formula 4*|stub| + rotated stub bytes with e_lfanew zeroed + rotated record values mod 2^32 (C16_checksum_formula); for every stub of at least 16 dwords, every record list, every non-zero key outside the known ambiguity class, any zero padding and anything after e_lfanew, try_from returns exactly the stub/trailer split, records() the records, xor_key() the key, and checksum() the key when it was the checksum (C16_roundtrip); re-encoding reproduces the words (C16_reencode); whatever is accepted has a well-formed 'DanS^k k k k .. Rich k 0*' trailer at an even distance, at or after dword 16 (C16_accept_only_well_formed); the two backward scans never fault or run out of fuel (C16_try_from_no_fault). The format ambiguity F20 is a decidable known class with a machine-checked witness. Tied to /repo by the correspondence check through Pe::rich_structure() on DOS areas built by an independent writer and on malformed variants.",
-        note="Trusted: Coq kernel, extraction and glue, the harness's independent Rich writer and checksum. Known finding F20 (class records_contain_false_header, and key_is_zero): an encoded record stream that contains the header pattern, or a zero key, cannot be decoded unambiguously - a property of the format.",
-        bin="rich", driver="rich_driver", model_ml="rich_model", extract=["Rich"],
-        quick_cases=4000, thorough_cases=400000, case_seconds=3, shrink_fields=[],
-        correspondence="Model/Rich.v {try_from, xor_key, records, checksum, encode, rdecode, rencode} vs pelite Pe::rich_structure(), RichStructure::{xor_key, checksum, records, encode, image}, RichRecord::{decode, encode}",
-        rule="DOS areas from an independent writer: stub of 16..70 dwords (25% zero dwords, arbitrary otherwise), 0..9 or 30..60 records with field values over-representing 0, 0xFFFF, high bits, counts {0,31,32,64,2^31,2^32-1}, 0..7 dwords of zero padding, key = checksum (80%), arbitrary, or zero; F20 pattern planted in 1/16; malformed variants: Rich marker missing, DanS missing, odd distance, all-zero area, junk after the trailer, e_lfanew moved; wrapped in a minimal PE32+ image; 1/8 pure codec cases. Non-trivial: accepted or expected to be.",
-        trusted_base=["Spec/RichSpec.v as the reading of the property text and of the Rich header format"],
-        assumptions=[],
-    ),
-}
+"""Per-property configuration of the check: one file per property in lib/props.d/ (see lib/vcheck.py)."""
+import glob, os, runpy
+PROPS = {}
+for _p in sorted(glob.glob(os.path.join(os.path.dirname(os.path.abspath(__file__)), "props.d", "C*.py"))):
+    PROPS[os.path.basename(_p)[:-3]] = runpy.run_path(_p)["CONFIG"]
+NOT_CLAIMED = {}
